@@ -256,6 +256,17 @@ fn run_subject<Cfg: GenericConfig<D, F = F>>(ctx: &Ctx, a: &Accepted<Cfg>, leaf_
             ctx.case(&format!("fixed-challenges-list:{}:{:?}", path_kind(path), m), &case, || {
                 let Some(t) = mutate_array(&a.json, path, m) else { return Ok(String::new()) };
                 let v = verdict_fixed(a, t);
+                // a swap inside / between cap entries that no query reads changes nothing that the
+                // fixed-challenge verification looks at (the full protocol binds them through Fiat-Shamir)
+                if m == ArrMut::SwapFirstTwo && path_str(path).contains("commit_phase_merkle_caps[") {
+                    let untouched = match cap_entry_of(path) {
+                        Some(e) => !hit_caps.contains(&e),
+                        None => !hit_caps.contains(&0) && !hit_caps.contains(&1), // swapping entries 0 and 1
+                    };
+                    if untouched {
+                        return Ok("fixed-list:cap-entries-not-queried".into());
+                    }
+                }
                 if v == "accepted" {
                     return Err(format!("FRI verification under fixed challenges ACCEPTS list mutation {:?} at {}", m, path_str(path)));
                 }
